@@ -47,14 +47,16 @@ def jfill(n, idv):
     return x
 
 
-def compose(ops, protocol=True, mt=None, logical=False):
+def compose(ops, protocol=True, mt=None, logical=False, tid=None, rank=None):
     """Turn model ops (after thread_init) into (script lines, execution records
     skeleton, expected-bytes table).  mt = (k, n): script of thread k of an n-thread
     program (thread ids 1000+k, CPU k; all threads call ovni_thread_free together)."""
     k, nth = mt if mt else (0, 1)
-    tid = 1000 + k
+    tid = tid if tid is not None else 1000 + k
     lines = (["proc_init 1 node0 1000"] if k == 0 else []) + (["barrier"] if mt else [])
     lines += ["thread_init %d" % tid] + (["cpu %d %d" % (c, c) for c in range(nth)] if k == 0 else [])
+    if rank is not None and k == 0:
+        lines.append("rank %d %d" % rank)       # the process belongs to an MPI job: set by one thread only
     lines += ["mark_type 1 0 verifmark"]
     if logical:
         lines.append("clockmode logical")     # the program's own time base: 0, 100, 200, ...
@@ -96,6 +98,9 @@ def compose(ops, protocol=True, mt=None, logical=False):
         elif o["op"] == "flush":
             lines.append("flush")
             recs.append(("flush", {"op": "flush"}))
+        elif o["op"] == "attr":
+            # a metadata update in the middle of the run: no effect on the stream (no record for the model)
+            lines += ["attr_str user.phase p%d" % len(lines), "attr_flush"]
         else:
             raise core.MachineryError("unknown model op %r" % (o,))
     if protocol:
@@ -163,14 +168,17 @@ def run_script(drv, bdir, ops, want_emu, keep=None, shim=None, tmpdir=False, pro
         shutil.rmtree(d, ignore_errors=True)
 
 
-def run_mt(drv, bdir, ops_list, want_emu, tmpdir):
+def run_mt(drv, bdir, ops_list, want_emu, tmpdir, ranked=False):
     """An n-thread program: thread k runs ops_list[k]; all threads free together (relocation
     from OVNI_TMPDIR when tmpdir).  Returns one result per thread (the emulator run, on the whole
     trace, is attached to the first)."""
     d = core.mkscratch("rtmt")
     try:
         n = len(ops_list)
-        comp = [compose(ops, mt=(k, n)) for k, ops in enumerate(ops_list)]
+        # ranked: the process is rank 0 of 2 (a second, single-threaded process of the same loom is rank 1); the
+        # thread that sets the rank has tid 999, whose directory "thread.999" sorts AFTER "thread.1001"
+        tids = [999 if (ranked and k == 0) else 1000 + k for k in range(n)]
+        comp = [compose(ops, mt=(k, n), tid=tids[k], rank=(0, 2) if ranked else None) for k, ops in enumerate(ops_list)]
         args = []
         for k, (lines, recs, table, dies) in enumerate(comp):
             sp = os.path.join(d, "script%d" % k)
@@ -181,10 +189,18 @@ def run_mt(drv, bdir, ops_list, want_emu, tmpdir):
         if tmpdir:
             env["OVNI_TMPDIR"] = os.path.join(d, "tmp")
         rc, out, err = core.run([drv, "-mt"] + args, timeout=180, env=env, cwd=d)
+        if ranked and rc == 0:
+            sp = os.path.join(d, "scriptB")
+            open(sp, "w").write("\n".join(["proc_init 1 node0 2000", "thread_init 2000", "cpu %d %d" % (n, n), "rank 1 2",
+                                           "emitraw OHx " + struct.pack("<iiQ", n, 2000, 7).hex(), "emitraw OHe -",
+                                           "flush", "free", "fini"]) + "\n")
+            rcb, outb, errb = core.run([drv, sp, os.path.join(d, "logB")], timeout=60, env=env, cwd=d)
+            if rcb != 0:
+                raise core.MachineryError("second process of a ranked program failed: %s" % errb[-300:])
         res = []
         anyabort = False
         for k, (lines, recs, table, dies) in enumerate(comp):
-            execution, problems, aborted = interpret(os.path.join(d, "log%d" % k), recs, table, td, 1000 + k, rc, err)
+            execution, problems, aborted = interpret(os.path.join(d, "log%d" % k), recs, table, td, tids[k], rc, err)
             anyabort = anyabort or aborted
             res.append({"execution": execution, "problems": problems, "emu": None, "script": lines,
                         "ops": ops_list[k], "mt": (k, n, tmpdir)})
@@ -277,7 +293,7 @@ def interpret(lp, recs, table, td, tid, rc, err, pid=1000):
             if meta is not None:
                 ov = meta.get("ovni", {})
                 for key in ("lib", "part", "tid", "pid", "loom", "app_id", "require", "finished", "loom_cpus"):
-                    if key == "loom_cpus" and tid not in (1000, 4194301):
+                    if key == "loom_cpus" and tid not in (1000, 4194301, 999):
                         continue        # CPUs are registered by one thread of the loom
                     if key not in ov:
                         problems.append("metadata lacks ovni.%s" % key)
@@ -456,8 +472,18 @@ def main(pid, tier):
     # the full-write loop of the runtime must still put every byte on disk
     shim = core.cc_shim(bdir)
 
+    def with_attr(ops):
+        out = []
+        for i_, o in enumerate(ops):
+            out.append(o)
+            if i_ == 0 or o["op"] == "flush":
+                out.append({"op": "attr"})
+        return out
+
     def one(x):
         k, ops = x
+        if k % 9 == 7:
+            ops = with_attr(ops)        # the thread also updates and flushes its metadata while it runs
         # C01 speaks of any events: a fifth of its scripts does not start with the execute event
         # (so the first flush can find very few bytes in the buffer); every seventh script uses a
         # 7-digit pid and tid
@@ -491,8 +517,8 @@ def main(pid, tier):
     pool = [ops for ops in (win + walks) if not any(o["op"] == "jumbo" and o["n"] + 16 >= CAP for o in ops)]
     rng.shuffle(pool)
     ngroups = min(len(pool) // 3, 30 if tier == "quick" else 400)
-    groups = [(pool[3 * g:3 * g + 3], g % 3 != 2) for g in range(ngroups)]
-    mtres = core.pmap(lambda g: run_mt(drv, bdir, g[0], want_emu, g[1]), groups, workers=max(2, core.NCPU // 3))
+    groups = [(pool[3 * g:3 * g + 3], g % 3 != 2, g % 4 == 1) for g in range(ngroups)]
+    mtres = core.pmap(lambda g: run_mt(drv, bdir, g[0], want_emu, g[1], ranked=g[2]), groups, workers=max(2, core.NCPU // 3))
     for rs in mtres:
         results.extend(rs)
     ck.notes["scripts"]["three_thread_programs"] = {"programs": ngroups, "relocating_from_tmpdir": sum(1 for g in groups if g[1])}
